@@ -369,11 +369,17 @@ def showSpecError : ZTSpec.SpecError → String
     a failure of the claimed property (the known finding K1 gets its own verdict); under the relaxed
     condition only (a `.` inside a label written `\\.`, the relative name `\\@`) a difference gets the
     verdict of candidate finding K2. -/
-def oracleDenote (ds : List ZTSpec.Directive) (v : ZTSpec.FileVar) (impl : String) : String × String :=
+def oracleDenote (ds : List ZTSpec.Directive) (v : ZTSpec.FileVar) (impl : String) (modelOut : String) :
+    String × String :=
   let strict := ZTSpec.Unambiguous ds
   if !strict && !ZTSpec.UnambiguousRelaxed ds then ("ok", "ambiguous")
   else
-    let k2 (verdict : String) : String := if strict then verdict else "fail:C11:K2-escaped-special-in-name"
+    -- the known findings K1 / K2 are specific misreadings which the model reproduces: a difference
+    -- from `denote` carries their verdict only when the implementation does exactly what the model
+    -- does on this text; any other difference in the same situation is reported under its own name
+    let asModelled := impl == modelOut
+    let k2 (verdict : String) : String :=
+      if strict || !asModelled then verdict else "fail:C11:K2-escaped-special-in-name"
     let pre := if strict then "" else "relaxed/"
     match ZTSpec.denote ds with
     | .ok m =>
@@ -389,7 +395,7 @@ def oracleDenote (ds : List ZTSpec.Directive) (v : ZTSpec.FileVar) (impl : Strin
         | _, _ => ("fail:C11:unparsable-dump", pre ++ "denote-ok")
     | .error e =>
       if impl.startsWith "err " then ("ok", pre ++ "denote-err/" ++ showSpecError e)
-      else if ZTSpec.isK1 ds v then ("fail:C11:K1-class-as-owner", pre ++ "denote-err/" ++ showSpecError e)
+      else if ZTSpec.isK1 ds v && asModelled then ("fail:C11:K1-class-as-owner", pre ++ "denote-err/" ++ showSpecError e)
       else (k2 ("fail:C11:accepted-invalid:" ++ showSpecError e), pre ++ "denote-err/" ++ showSpecError e)
 
 /-- `ztext.rendered <directives> <variant> <hex-text>`: the text must be `render ds v` (cross-check of
@@ -401,8 +407,21 @@ def cmdZtextRendered (dsText vText hex impl : String) : Result :=
       { model := "render-mismatch " ++ hexOfText (ZTSpec.render ds v), oracle := "bad-op", tags := "render-mismatch" }
     else
       let r := ZoneText.deserialise cs
-      let (o, t) := oracleDenote ds v impl
+      let (o, t) := oracleDenote ds v impl (showDResult r)
       { model := showDResult r, oracle := (oracleC17 impl).getD o, tags := t ++ "/" ++ dresultTag r }
   | _, _, _ => bad "args"
+
+/-- `ztext.glued <hex-original> <hex-glued>`: the second text is the first with trailing comments glued
+    onto the token before them; Impl ≡ Model on it, and its meaning is that of the original. -/
+def cmdZtextGlued (hexOrig hexGlued impl : String) : Result :=
+  match textOfHex hexOrig, textOfHex hexGlued with
+  | some o, some g =>
+    let want := showDResult (ZoneText.deserialise o)
+    let r := ZoneText.deserialise g
+    let verdict :=
+      if impl == want || !want.startsWith "ok" then "ok"
+      else "fail:C11:comment-directly-after-a-token-changes-the-meaning"
+    { model := showDResult r, oracle := (oracleC17 impl).getD verdict, tags := "glued/" ++ dresultTag r }
+  | _, _ => bad "args"
 
 end Resolved.Driver
